@@ -306,9 +306,13 @@ var tinyInputs = map[string][]string{
 	"newick": {"(a,b)c;", "a;b;c;", "(a,b", "'a b';", "a:1;\nb;", "(a\r\n,b\r\n)c;", "a:1\r\n;", "\xef\xbb\xbfa;", "(a:1,b)c:2;", "'a''b';x;"},
 }
 
-func TestC06(t *testing.T) {
-	Run(t, Prop[C06Case]{ID: "C06", Gen: genC06, Exhaustive: exhaustiveC06, Check: checkC06})
+func propC06() Prop[C06Case] {
+	return Prop[C06Case]{ID: "C06", Gen: genC06, Exhaustive: exhaustiveC06, Check: checkC06}
 }
+
+func TestC06(t *testing.T) { Run(t, propC06()) }
+
+func FuzzGenC06(f *testing.F) { RunFuzz(f, propC06()) }
 
 // ---- native fuzz targets (thorough tier) ------------------------------------------------
 
